@@ -337,6 +337,9 @@ func committeeInvariants(n *chain.Node) string {
 					}
 				}
 			}
+			if mn := cs[role].MaxNodes; mn != nil && mn.Limit == 0 {
+				avail = 0 // a limit of no nodes per entity: nobody may sit in the committee
+			}
 			minPool := 0
 			if cs[role].MinPoolSize != nil {
 				minPool = int(cs[role].MinPoolSize.Limit)
@@ -513,6 +516,7 @@ func runC14(r *ev.Run) {
 			for _, t := range w.runtimeTxs() {
 				switch t.Name {
 				case "runtime-update(e0,max-in-msgs+1)", "runtime-update(e0,group size 0)", "runtime-new(e1)", "runtime-update(e0,owner->e1)",
+					"runtime-update(e0,max nodes per entity 0)", "runtime-update(e0,min pool 200)",
 					"node0-renew+compute(exp13)", "node3-new validator+compute for e1", "node3-new compute for e1", "node3-new observer+runtime for e1":
 					ls = append(ls, letter{Name: t.Name, Txs: []txT{t}})
 				}
